@@ -174,7 +174,7 @@ pub fn decode_history(target: &str, data: &[u8]) -> Option<serde_json::Value> {
                     _ => Act::Drop(k),
                 });
             }
-            serde_json::to_value(Case { orientation: cfg & 1 == 1, initiator: (cfg >> 1) & 1, acts, lossless_cycles: if cfg & 4 == 4 { 8 } else { 0 } }).ok()?
+            serde_json::to_value(Case { orientation: cfg & 1 == 1, initiator: (cfg >> 1) & 1, acts, lossless_cycles: if cfg & 4 == 4 { 8 } else { 0 }, start: (cfg >> 3) % 3 }).ok()?
         }
         "hist_c11" => {
             use crate::props::c11::{Op, TableCase};
